@@ -714,6 +714,8 @@ func IntoObject(injector Injector, sidecarTemplate Templates, valuesConfig Value
 
 	var deploymentMetadata types.NamespacedName
 	var metadata *metav1.ObjectMeta
+	// podMetadata is set where the metadata the pods will carry is not the one the injection writes to (CronJob)
+	var podMetadata *metav1.ObjectMeta
 	var podSpec *corev1.PodSpec
 	var typeMeta metav1.TypeMeta
 
@@ -749,6 +751,7 @@ func IntoObject(injector Injector, sidecarTemplate Templates, valuesConfig Value
 		job := v
 		typeMeta = job.TypeMeta
 		metadata = &job.Spec.JobTemplate.ObjectMeta
+		podMetadata = &job.Spec.JobTemplate.Spec.Template.ObjectMeta
 		deploymentMetadata = config.NamespacedName(job)
 		podSpec = &job.Spec.JobTemplate.Spec.Template.Spec
 	case *corev1.Pod:
@@ -846,6 +849,10 @@ func IntoObject(injector Injector, sidecarTemplate Templates, valuesConfig Value
 	if patchBytes == nil {
 		// the namespace of the pod is the template's, else the workload's (as the webhook falls back to the request namespace)
 		decisionMeta := pod.ObjectMeta
+		if podMetadata != nil {
+			// whether a pod is injected is decided by the labels and annotations of the pod, i.e. of the pod template
+			decisionMeta = *podMetadata
+		}
 		if decisionMeta.Namespace == "" {
 			decisionMeta.Namespace = namespace
 		}
